@@ -78,6 +78,8 @@ def validate_encoding(topo, enc: Enc, rng, style="array", flags=None, numeric=No
                 bad.append(f"float run raised {type(exc).__name__}: {exc}")
                 continue
             for key, vals in enc.outs.items():
+                if vals is None or real.get(key) is None:
+                    continue  # a missing next state is reported by the caller, it is not an encoder problem
                 for i, s in enumerate(vals):
                     x = zeval.evalf(s.t, env)
                     if not numrun.close(x, real[key][i], 1e-9, 1e-9):
@@ -228,6 +230,11 @@ class Acc:
     def done(self, prover=None):
         if prover is not None:
             self.d["stats"] = prover.stats.asdict()
+        if runs.DEFAULT_HIST:
+            for v in self.d["violations"]:
+                if isinstance(v.get("replay"), dict):
+                    v["replay"].setdefault("hist", runs.DEFAULT_HIST)
+                    v["what"] = f"[network history: {runs.DEFAULT_HIST}] " + v["what"]
         return self.d
 
 
@@ -311,6 +318,9 @@ def history_builders():
         "reads-interleaved": lambda topo, P, eng: c14.build_variant(topo, P, {"order": c14.default_order(topo), "touch": True}, eng),
         "decoy-links-replaced": lambda topo, P, eng: c14.build_variant(topo, P, {"decoy": "links"}, eng),
         "decoy-attachments-replaced": lambda topo, P, eng: c14.build_variant(topo, P, {"decoy": "attach"}, eng),
+        # all links are called "seg", all origins and destinations "od", all nodes "n" (NumPy engines only: the CasADi
+        # encodings of this module bind function arguments by name)
+        "same-names": lambda topo, P, eng: T_.build(topo, P, rename=lambda s: {"L": "seg", "O": "od", "D": "od"}.get(s[0], "n")),
     }
 
 
